@@ -180,4 +180,30 @@ op('compress', 'move_cx', C05, ALL, 'b', 'b', 'xsimd::compress(a, M_<{T}>::from_
 op('expand', 'move_cx', C05, ALL, 'b', 'b', 'xsimd::expand(a, M_<{T}>::from_mask({m}ull))', WS.expand_spec, whole=True,
    variants=lambda ty, cfg, tier: [{'m': m} for m in MK.bitmasks(_nl(ty, cfg), tier, 'exp')])
 
+# ---- C04 ---------------------------------------------------------------------
+C04 = ['C04']
+op('load_aligned', 'mem', C04, ALL, 'p', 'b', 'B_<{T}>::load_aligned(p)', WS.load_spec(True), whole=True)
+op('load_unaligned', 'mem', C04, ALL, 'p', 'b', 'B_<{T}>::load_unaligned(p)', WS.load_spec(False), whole=True)
+op('load_tag_a', 'mem', C04, ALL, 'p', 'b', 'B_<{T}>::load(p, xsimd::aligned_mode())', WS.load_spec(True), whole=True)
+op('load_tag_u', 'mem', C04, ALL, 'p', 'b', 'B_<{T}>::load(p, xsimd::unaligned_mode())', WS.load_spec(False), whole=True)
+op('load_free_a', 'mem', C04, ALL, 'p', 'b', 'xsimd::load_aligned<A>(p)', WS.load_spec(True), whole=True)
+op('load_free_u', 'mem', C04, ALL, 'p', 'b', 'xsimd::load_unaligned<A>(p)', WS.load_spec(False), whole=True)
+op('store_aligned', 'mem', C04, ALL, 'bP', 'void', 'a.store_aligned(o)', WS.store_spec(True), whole=True)
+op('store_unaligned', 'mem', C04, ALL, 'bP', 'void', 'a.store_unaligned(o)', WS.store_spec(False), whole=True)
+op('store_tag_a', 'mem', C04, ALL, 'bP', 'void', 'a.store(o, xsimd::aligned_mode())', WS.store_spec(True), whole=True)
+op('store_tag_u', 'mem', C04, ALL, 'bP', 'void', 'a.store(o, xsimd::unaligned_mode())', WS.store_spec(False), whole=True)
+op('store_free_a', 'mem', C04, ALL, 'bP', 'void', 'xsimd::store_aligned(o, a)', WS.store_spec(True), whole=True)
+op('store_free_u', 'mem', C04, ALL, 'bP', 'void', 'xsimd::store_unaligned(o, a)', WS.store_spec(False), whole=True)
+op('bool_load_a', 'mem', C04 + ['C03'], ALL, 'p', 'm', 'M_<{T}>::load_aligned(p)', WS.bool_load_spec, whole=True, ptr_type=lambda ty: 'bool', mem_bits=lambda ty: 1)
+op('bool_load_u', 'mem', C04 + ['C03'], ALL, 'p', 'm', 'M_<{T}>::load_unaligned(p)', WS.bool_load_spec, whole=True, ptr_type=lambda ty: 'bool', mem_bits=lambda ty: 1)
+op('bool_store_a', 'mem', C04 + ['C03'], ALL, 'mP', 'void', 'm.store_aligned(o)', WS.bool_store_spec, whole=True, ptr_type=lambda ty: 'bool', mem_bits=lambda ty: 1)
+op('bool_store_u', 'mem', C04 + ['C03'], ALL, 'mP', 'void', 'm.store_unaligned(o)', WS.bool_store_spec, whole=True, ptr_type=lambda ty: 'bool', mem_bits=lambda ty: 1)
+op('broadcast', 'mem', C04, ALL, 's', 'b', 'B_<{T}>(s)', WS.broadcast_spec, whole=True)
+op('broadcast_fn', 'mem', C04, ALL, 's', 'b', 'xsimd::broadcast<{T}, A>(s)', WS.broadcast_spec, whole=True)
+op('ctor_list', 'mem', C04, ALL, 'E', 'b', 'B_<{T}>({ELIST})', WS.ctor_spec, whole=True)
+op('bget', 'mem', C04, ALL, 'b', 's', 'a.get({i})', WS.bget_spec, whole=True,
+   variants=lambda ty, cfg: [{'i': k} for k in sorted(set([0, 1, _nl(ty, cfg) // 2, _nl(ty, cfg) - 1]))])
+op('gather', 'mem', C04, [t for t in ALL if t.bits >= 32], 'px', 'b', 'B_<{T}>::gather(p, x)', WS.gather_spec, whole=True)
+op('scatter', 'mem', C04, [t for t in ALL if t.bits >= 32], 'bPx', 'void', 'a.scatter(o, x)', WS.scatter_spec, whole=True)
+
 BY_NAME = dict((o.name, o) for o in OPS)
